@@ -121,6 +121,12 @@ def cases(tier):
         for (_na, a, _x), (_nb, b, _y), (_nc, c, _z) in itertools.product(sh, sh, sh):
             for side in (0, 1):
                 out.append(dict(route='shared', c1=c1, c2=c2, a=a, b=b, c=c, side=side))
+    # a power with a constant exponent >= 1 (>= 2 for the curvature) is differentiable where its base is exactly zero
+    for base in ('poly_root', 'root*morse', 'root^2'):
+        for e in (1, 2, 3, 4, 2.0, 2.5, 3.5, 1.0, 1.5):
+            for wrap in ('none', 'sum', 'product'):
+                for route in ('api', 'cfg'):
+                    out.append(dict(route='pow_zero', base=base, e=e, wrap=wrap, via=route))
     # multi-range potentials with a non-zero default value (a plateau below the first range: its derivatives are zero)
     for comb in ('none', 'sum', 'product'):
         for marker in ('>', '>='):
@@ -359,7 +365,59 @@ def run_shared(case):
     return dict(outcome='ok:shared' if not viol else 'violation', nontrivial=True, evals=len(before) * 4, violations=viol)
 
 
+def run_pow_zero(case):
+    L = dict((n, it) for n, it, _l in leaves())
+    root, morse = L['poly_root'], L['morse']
+    base = {'poly_root': root, 'root*morse': mod('product', root, morse), 'root^2': mod('pow', root, form('constant', 2))}[case['base']]
+    e = case['e']
+    if case['base'] == 'root^2' and e < 1.0:
+        return dict(outcome='skip', nontrivial=False, evals=0, violations=[])
+    t = mod('pow', base, form('constant', e))
+    d = D(t) if case['wrap'] == 'none' else D(mod(case['wrap'], t, morse))
+    env = M.env()
+    if case['via'] == 'api':
+        f = R.api_defn(d)
+    else:
+        f = R.config_read(M.pair_ini('LAMMPS', [('A', 'B', d)], 5.0, 6)).potentials[0].potentialFunction
+    r = 0.7
+    a = X.ev_item(base, r, env)            # a.v == 0 exactly
+    b = float(e)
+    if a.v != 0.0:
+        return dict(outcome='harness:base-not-zero', nontrivial=False, evals=0, violations=[dict(sig='harness:base-not-zero', msg=repr(a), detail={})])
+    # order of the zero of the base at r: 1 for the root itself and root*morse (a ~ c x), 2 for root^2 (a = x^2, a' = 0)
+    v = 0.0
+    if a.d1 != 0.0:
+        d1 = a.d1 if b == 1 else 0.0
+        d2 = a.d2 if b == 1 else (2 * a.d1 * a.d1 if b == 2 else (0.0 if b > 2 else None))      # 1 < b < 2: infinite curvature
+    else:
+        d1 = 0.0
+        d2 = a.d2 if b == 1 else 0.0       # (x^2)^b = |x|^(2b), 2b >= 3
+    pj = Jet(v, d1, d2 if d2 is not None else 0.0)
+    mj = X.ev_item(morse, r, env)
+    tot = pj if case['wrap'] == 'none' else (pj + mj if case['wrap'] == 'sum' else pj * mj)
+    viol, n = [], 0
+    for which, want in (('__call__', tot.v), ('deriv', tot.d1), ('deriv2', tot.d2)):
+        if which == 'deriv2' and d2 is None:
+            continue
+        if which != '__call__' and not hasattr(f, which):
+            viol.append(dict(sig='%s-not-offered' % which, msg='%s: .%s is not offered' % (X.render_defn(d), which), detail={}))
+            break
+        n += 1
+        try:
+            got = f(r) if which == '__call__' else getattr(f, which)(r)
+        except (ZeroDivisionError, ValueError, OverflowError) as ex:
+            viol.append(dict(sig='%s-raises-at-zero-of-pow-base:%s' % (which, type(ex).__name__), msg='%s: %s(%r) raised %s: %s; the base is exactly zero there and the true value is %r'
+                             % (X.render_defn(d), which, r, type(ex).__name__, ex, want), detail={}))
+            break
+        if not abs(got - want) <= 1e-9 * (abs(want) + abs(mj.v) + abs(mj.d1) + abs(mj.d2) + 1.0):
+            viol.append(dict(sig='%s-wrong-at-zero-of-pow-base' % which, msg='%s: %s(%r) = %r, true value %r' % (X.render_defn(d), which, r, got, want), detail={}))
+            break
+    return dict(outcome='ok:pow_zero' if not viol else 'violation', nontrivial=True, evals=n, violations=viol)
+
+
 def run_case(case):
+    if case['route'] == 'pow_zero':
+        return run_pow_zero(case)
     if case['route'] == 'shared':
         return run_shared(case)
     if case['route'] == 'leaf':
